@@ -881,6 +881,15 @@ def run(ctx, rep):
     else:
         writer_vs_grammar(ctx, rep)
         token_languages(ctx, rep)
+        # reading back what was written: the consumers hand every written clause's own value to the operation (a FEES amount
+        # keeps its amount AND its currency) and default only what is absent — decided by symbolic evaluation of the consumers over
+        # the derivation trees (shared with C13-R6; seeded change C14-s5 rewrote an explicit GBP fee to the price currency)
+        import rules.c13 as c13
+        from core import Report
+        r2 = Report("tmp")
+        c13.defaults(ctx.S, Grammar(ctx.S["grammar"]), r2)
+        for o in r2.obligations:
+            rep.ob("R1", "reader:" + o["instance"], o["ok"], o["detail"], o["site"], key="R1:reader:" + o["instance"])
     json_names(ctx.F, rep)
     json_reader_domain(ctx.F, rep)
     mcp_routing(ctx.F, rep)
